@@ -132,6 +132,23 @@ func checkC16(c *Ctx) error {
 			}
 			c.Add("flagged_runs_compared", 1)
 		}
+		// --quiet must not change what the flags do: same exit status and same file for every combination
+		for k, fl := range combos {
+			if (i+k)%2 != 0 {
+				continue
+			}
+			out := filepath.Join(dir, fmt.Sprintf("quiet%d.go", k))
+			args := append([]string{"build", "-i", "in.yaml", "-o", out, "--quiet"}, fl...)
+			q := cli.Do(w, "", nil, dir, out, args...)
+			b, _ := os.ReadFile(out)
+			c.Add("quiet_twins_compared", 1)
+			if q.Res.Exit != runs[k].Res.Exit || string(b) != outs[k] {
+				c.Violate("quiet-changes-flag-effect:"+strings.Join(fl, "+"), fmt.Sprintf("flags %v: exit %d without --quiet, %d with it; output equal: %v", fl, runs[k].Res.Exit, q.Res.Exit, string(b) == outs[k]), files)
+			}
+			for _, br := range q.Contract() {
+				c.Violate("cli-contract:"+sigWords(br), fmt.Sprintf("flags %v --quiet: %s", fl, br), files)
+			}
+		}
 		if runs[0].Res.Exit == 0 {
 			c.Add("accepted_without_flags", 1)
 		} else if runs[3].Res.Exit == 0 {
